@@ -49,8 +49,14 @@ def emb_bytes(kind, order):
     typ = {"UInt": "UInt", "Int": "Int", "Bcd": "Bcd", "UEnum": "Ue", "SEnum": "Se", "Float": "Float"}[kind]
     lines = ['[$default byte_order: "%s"]' % order, "enum Ue:", "  UA = 0", "  UB = 1", "enum Se:", "  SA = -1", "  SB = 0",
              "struct Ss:"]
+    other = "BigEndian" if order == "LittleEndian" else "LittleEndian"
     for o, n in byte_fields(kind):
         lines.append("  %d [+%d]  %s  f_%d_%d" % (o, n, typ, o, n))
+    # overlays of the same bytes with the opposite byte order (same type, size and offset as the field above)
+    for o, n in byte_fields(kind):
+        if n > 1 and o in (0, 1, 4):
+            lines.append("  %d [+%d]  %s  g_%d_%d" % (o, n, typ, o, n))
+            lines.append('    [byte_order: "%s"]' % other)
     return "\n".join(lines) + "\n"
 
 
@@ -107,14 +113,15 @@ template <class T> static i128 to_i128(T v) {
   return (i128)(unsigned long long)r;
 }
 // field bits as the reference sees them
+static Order g_ord = ORD;      // byte order of the field under test (overlay fields use the opposite one)
 static u128 field_raw(const unsigned char *buf, int o, int w) {
-  if (BYTES_MODE) return get_bits(buf + o, w, ORD, 0, w * 8);
-  return get_bits(buf, NB, ORD, o, w);
+  if (BYTES_MODE) return get_bits(buf + o, w, g_ord, 0, w * 8);
+  return get_bits(buf, NB, g_ord, o, w);
 }
 static int field_bits(int w) { return BYTES_MODE ? w * 8 : w; }
 static void field_put(unsigned char *buf, int o, int w, u128 raw) {
-  if (BYTES_MODE) put_bits(buf + o, w, ORD, 0, w * 8, raw);
-  else put_bits(buf, NB, ORD, o, w, raw);
+  if (BYTES_MODE) put_bits(buf + o, w, g_ord, 0, w * 8, raw);
+  else put_bits(buf, NB, g_ord, o, w, raw);
 }
 struct Exp { bool ok; i128 value; };
 static Exp expect(const unsigned char *buf, int o, int w) {
@@ -233,7 +240,7 @@ template <class F> static void check_write(F f, unsigned char *buf, int len, int
 
 @FIELD_FUNCS@
 
-struct Entry { int o, w; const char *name; void (*rd)(const unsigned char *, int, Tally &); void (*wr)(unsigned char *, int, i128, int); };
+struct Entry { int o, w; const char *name; void (*rd)(const unsigned char *, int, Tally &); void (*wr)(unsigned char *, int, i128, int); int flip; };
 static Entry TABLE[] = {
 @TABLE@
 };
@@ -298,10 +305,11 @@ int main(int argc, char **argv) {
       for (unsigned long content = 0; content < (1ul << (8 * NB)); ++content) {
         unsigned char *buf = aligned;
         for (int i = 0; i < NB; ++i) buf[i] = (unsigned char)(content >> (8 * i));
-        for (int i = 0; i < NF; ++i) TABLE[i].rd(buf, 8, TALLY[i]);
+        for (int i = 0; i < NF; ++i) { g_ord = TABLE[i].flip ? (ORD == kLE ? kBE : kLE) : ORD; TABLE[i].rd(buf, 8, TALLY[i]); }
       }
     }
     for (int i = 0; i < NF; ++i) {
+      g_ord = TABLE[i].flip ? (ORD == kLE ? kBE : kLE) : ORD;
       int n = field_bits(TABLE[i].w);
       patterns(n, pats);
       if (KIND == KBcd) bcd_patterns(n, pats);
@@ -321,6 +329,7 @@ int main(int argc, char **argv) {
     }
   } else {
     for (int i = 0; i < NF; ++i) {
+      g_ord = TABLE[i].flip ? (ORD == kLE ? kBE : kLE) : ORD;
       int n = field_bits(TABLE[i].w);
       candidates(n, cands);
       std::vector<std::vector<unsigned char> > inits;
@@ -359,8 +368,10 @@ def driver(kind, c, order, bytes_mode):
     funcs = []
     table = []
     nb = 16 if bytes_mode else c // 8
-    for o, w in flds:
-        name = "f_%d_%d" % (o, w)
+    entries = [(o, w, "f_%d_%d" % (o, w), 0) for o, w in flds]
+    if bytes_mode:
+        entries += [(o, w, "g_%d_%d" % (o, w), 1) for o, w in flds if w > 1 and o in (0, 1, 4)]
+    for o, w, name, flip in entries:
         acc = ("v.%s()" % name) if bytes_mode else ("v.b().%s()" % name)
         if bytes_mode:
             mk = ("  if (al >= 8) { auto v = G::MakeAlignedSsView<const unsigned char, 8>(buf, NB); check_read(%(acc)s, buf, %(o)d, %(w)d, \"%(n)s\", t); }\n"
@@ -374,7 +385,7 @@ def driver(kind, c, order, bytes_mode):
         funcs.append("static void wr_%s(unsigned char *buf, int len, i128 cand, int carrier) {\n"
                      "  auto v = G::MakeSsView(buf, (size_t)len); check_write(%s, buf, len, %d, %d, cand, carrier, \"%s\");\n}" % (
                          name, acc, o, w, name))
-        table.append('  {%d, %d, "%s", rd_%s, wr_%s},' % (o, w, name, name, name))
+        table.append('  {%d, %d, "%s", rd_%s, wr_%s, %d},' % (o, w, name, name, name, flip))
     src = DRIVER
     src = src.replace("@KIND@", kind).replace("@NB@", str(nb)).replace("@ORD@", "kBE" if order == "BigEndian" else "kLE")
     src = src.replace("@BYTES@", "true" if bytes_mode else "false")
